@@ -1,7 +1,9 @@
 package main
 
 import (
+	"encoding/json"
 	"fmt"
+	"go/types"
 	"strings"
 
 	"arkverif/checker/core"
@@ -32,6 +34,32 @@ func debugDump(what string) int {
 				fmt.Printf("%s  %-60s class=%s(%s) via=%v origin=%s\n", p.Rel(s.Node.Pos()), s.Path.String(), cls, key, s.Via, p.Rel(s.Origin.Pos()))
 			}
 		}
+	case what == "fields":
+		// JSON: owner -> field -> type string (package-local names unqualified)
+		out := map[string]map[string]string{}
+		sc := p.Ecs.Types.Scope()
+		qual := func(pk *types.Package) string {
+			if pk == p.Ecs.Types {
+				return ""
+			}
+			return pk.Name()
+		}
+		for _, name := range sc.Names() {
+			tn, ok := sc.Lookup(name).(*types.TypeName)
+			if !ok || tn.IsAlias() {
+				continue
+			}
+			st, ok := tn.Type().Underlying().(*types.Struct)
+			if !ok {
+				continue
+			}
+			out[name] = map[string]string{}
+			for i := 0; i < st.NumFields(); i++ {
+				out[name][st.Field(i).Name()] = fmt.Sprintf("%d:%s", i, types.TypeString(st.Field(i).Type(), qual))
+			}
+		}
+		b, _ := json.MarshalIndent(out, "", " ")
+		fmt.Println(string(b))
 	case what == "funcs":
 		for _, f := range m.AllFuncs() {
 			fmt.Printf("%s %s exported=%v\n", p.Rel(f.Pos()), f.Name, f.Exported())
